@@ -32,6 +32,12 @@ unless switched on, so every older cfg generates exactly what it did before):
                      "float-nan", "literal", "undefined-used", "extern-var",
                      "reloc-global", "inline-asm", "const-out-of-range",
                      "unop~";
+  blob_params (bool) add helper subroutines hbA/hbB/hbC (and, with externals,
+                     ext_blobs) whose parameters are blob types of EQUAL SIZE
+                     and DIFFERENT ALIGNMENT (blob<8:4> and blob<8:1> ...), as
+                     the C front-end produces for structs passed by value;
+                     "blob-call" kind statements call them with initialised
+                     allocs of exactly those types (needs kinds);
   rpo (bool)         list the blocks of every function in reverse post-order,
                      so that no non-phi operand is defined textually after
                      its use.
@@ -78,7 +84,7 @@ def norm_cfg(cfg):
     c = Cfg(types=INT_TYPES + ["f32", "f64"], ptr_size=8, n_funcs=3, size=14, shape="ssa", float=True,
             calls=True, externals=True, globals=True, blobs=True, fptr=True, undefined=False,
             volatile=False, init_globals=True, no_ops=(), rotates=False, tailcall=True,
-            float_to_int=True, ptr_compare=True, unops=True, unsafe=False, kinds=False, kinds_off=(), rpo=False)
+            float_to_int=True, ptr_compare=True, unops=True, unsafe=False, kinds=False, kinds_off=(), rpo=False, blob_params=False)
     c.update(cfg or {})
     c["types"] = [t for t in c["types"] if c["float"] or not t.startswith("f")]
     return c
@@ -97,6 +103,7 @@ class ModGen:
         self.globals = []    # (variable, [(offset, ty)] typed cells)
         self.ext_p = self.ext_f = None
         self.ext_v = None
+        self.blob_helpers = []   # (subroutine or external, [param types], ret ty or None)
         self.reloc = None    # (variable, offset of data pointer, (target variable, cells), offset of function pointer)
 
     def koff(self, name):
@@ -120,6 +127,8 @@ class ModGen:
                 self.add_global(gi)
             if cfg.kinds and cfg.init_globals and not self.koff("reloc-global"):
                 self.add_reloc_global()
+        if cfg.kinds and cfg.blob_params:
+            self.add_blob_helpers()
         n = r.randint(1, cfg.n_funcs)
         for fi in range(n):
             last = fi == n - 1
@@ -175,6 +184,64 @@ class ModGen:
         self.m.add_variable(v)
         self.reloc = (v, ps, target, 2 * ps)
         self.tags.add("reloc-initialized-global")
+
+    def add_blob_helpers(self):
+        """hbA(blob<S:A1>, i32) -> i32, hbB(blob<S:A2>, i32) -> i32, hbC(blob<S:A1>, blob<S:A2>) procedure,
+        optionally external ext_blobs(blob<S:A2>, blob<S:A1>): two blob types of one size, two alignments."""
+        r = self.r
+        size = r.choice([4, 8, 8, 16])
+        a1, a2 = r.sample([a for a in (1, 2, 4, 8) if a <= size], 2)
+        t1, t2 = ir.BlobDataTyp(size, a1), ir.BlobDataTyp(size, a2)
+        wty = T("u32") if T("u32") in self.int_types else self.int_types[0]
+        ity = T("i32") if T("i32") in self.int_types else self.int_types[0]
+        self.blob_word = wty
+        for name, bt in (("hbA", t1), ("hbB", t2)):
+            f = ir.Function(name, ir.Binding.LOCAL if r.random() < 0.3 else ir.Binding.GLOBAL, ity)
+            self.m.add_function(f)
+            p, k = ir.Parameter("box", bt), ir.Parameter("k", ity)
+            f.add_parameter(p)
+            f.add_parameter(k)
+            b = ir.Block(name + "_entry")
+            f.add_block(b)
+            f.entry = b
+            ad = ir.AddressOf(p, "boxp")
+            b.add_instruction(ad)
+            w = ir.Load(ad, "w", wty)
+            b.add_instruction(w)
+            c = ir.Cast(w, "wc", ity)
+            b.add_instruction(c)
+            s = ir.Binop(c, "+", k, "s", ity)
+            b.add_instruction(s)
+            b.add_instruction(ir.Return(s))
+            self.blob_helpers.append((f, [bt, ity], ity))
+        f = ir.Procedure("hbC", ir.Binding.GLOBAL)
+        self.m.add_function(f)
+        p1, p2 = ir.Parameter("first", t1), ir.Parameter("second", t2)
+        f.add_parameter(p1)
+        f.add_parameter(p2)
+        b = ir.Block("hbC_entry")
+        f.add_block(b)
+        f.entry = b
+        if self.globals:
+            g, cells = self.globals[0]
+            cands = [c for c in cells if c[1] is wty]
+            if cands:
+                ad = ir.AddressOf(p2, "secondp")
+                b.add_instruction(ad)
+                w = ir.Load(ad, "w", wty)
+                b.add_instruction(w)
+                go = ir.Const(cands[0][0], "go", ir.ptr)
+                b.add_instruction(go)
+                ga = ir.Binop(g, "+", go, "ga", ir.ptr)
+                b.add_instruction(ga)
+                b.add_instruction(ir.Store(w, ga))
+        b.add_instruction(ir.Exit())
+        self.blob_helpers.append((f, [t1, t2], None))
+        if self.cfg.externals:
+            e = ir.ExternalProcedure("ext_blobs", [t2, t1])
+            self.m.add_external(e)
+            self.blob_helpers.append((e, [t2, t1], None))
+        self.tags.add("blob-params")
 
     def add_asm_procedure(self):
         """never called (the reference interpreter cannot run inline assembly)"""
@@ -440,6 +507,8 @@ class FuncGen:
             acts.append("volatile")
         if self.blobs:
             acts.append("memcpy")
+        if mg.blob_helpers:
+            acts += ["blob-call", "blob-call"]
         a = r.choice(acts)
         if a == "int-const":
             ty = r.choice(mg.int_types)
@@ -537,6 +606,23 @@ class FuncGen:
             else:
                 self.emit(ir.Store(self.pick(env, ty), addr, volatile=True))
                 self.tag("volatile-store")
+        elif a == "blob-call":
+            callee, ptys, ret = r.choice(mg.blob_helpers)
+            args = []
+            for t in ptys:
+                if isinstance(t, ir.BlobDataTyp):
+                    al = self.emit(ir.Alloc(self.name("bx"), t.size, t.alignment))
+                    ad = self.emit(ir.AddressOf(al, self.name("bxa")))
+                    for off in range(0, t.size, mg.blob_word.size):
+                        self.emit(ir.Store(self.const(mg.blob_word), self.cell_addr(ad, off)))
+                    args.append(al)
+                else:
+                    args.append(self.pick(env, t))
+            if ret is None:
+                self.emit(ir.ProcedureCall(callee, args))
+            else:
+                env.add(self.emit(ir.FunctionCall(callee, args, self.name("bcr"), ret)))
+            self.tag("blob-call")
         elif a == "memcpy":
             (a1, ad1, s1), (a2, ad2, s2) = self.blobs[0], self.blobs[1]
             if r.random() < 0.5:
